@@ -177,14 +177,15 @@ fn replace_html_char<'a>(ch: char) -> Cow<'a, str> {
 }
 
 /// escape the character data of the `<style>` element: markup characters are escaped,
-/// characters XML can not represent are dropped, quotes stay as they are
+/// characters XML can not represent are dropped, quotes stay as they are. Line breaks of a
+/// multi-line legend declaration are left alone, so that a CRLF document yields the same
+/// style sheet as its LF twin once an XML parser has normalised the line ends.
 pub(crate) fn escape_style_text(s: &str) -> String {
     s.chars()
         .map(|ch| match ch {
             '>' => Cow::from("&gt;"),
             '<' => Cow::from("&lt;"),
             '&' => Cow::from("&amp;"),
-            '\r' => Cow::from("&#13;"),
             ch if !is_xml_char(ch) => Cow::from(""),
             _ => Cow::from(ch.to_string()),
         })
